@@ -195,6 +195,8 @@ class Runner(object):
             self.fail('operand changed by reflected scalar operator %s' % form, {'a': fpgen.obs_json(oa), 'x': x, 'op': form, 'replay': rp},
                       'operand-mutated:' + form)
         if r[0] != 'ok':
+            if r[1] != 'EType':        # TypeError (no such operation) is the one acceptable refusal
+                self.fail('%s raised %s' % ('x / a' if form == 'rdiv' else 'x // a', r[1]), {'a': fpgen.obs_json(oa), 'x': x, 'op': form, 'replay': rp}, 'reflected-division-raises')
             return
         got = dict(obs(r[1])['cnt'])
         if form == 'rdiv':
@@ -203,7 +205,16 @@ class Runner(object):
         else:
             want = {k: Fraction(x) // c for k, c in cnt.items() if c != 0}
             bad = any(got.get(k, 0) != w for k, w in want.items())
-        if bad:
+        # the KNOWN outcome is exactly `a / x` (`a // x`): anything else that is wrong is reported without the key
+        try:
+            swapped = obs(a / x if form == 'rdiv' else a // x)
+            is_known_outcome = obs(r[1]) == swapped
+        except Exception:  # noqa
+            is_known_outcome = False
+        if bad and not is_known_outcome:
+            self.fail('%s returned neither the scalar divided by the counts nor (the recorded defect) the counts divided by the scalar' % ('x / a' if form == 'rdiv' else 'x // a'),
+                      {'a': fpgen.obs_json(oa), 'x': x, 'op': form, 'impl': fpgen.obs_json(obs(r[1])), 'replay': rp}, 'reflected-division-wrong')
+        elif bad:
             self.fail('%s returned a %s x (every count divided BY the scalar), not the scalar divided by the counts'
                       % ('x / a' if form == 'rdiv' else 'x // a', '/' if form == 'rdiv' else '//'),
                       {'a': fpgen.obs_json(oa), 'x': x, 'op': form, 'impl': fpgen.obs_json(obs(r[1])),
